@@ -399,6 +399,9 @@ def t2_cases(tier, sizes=None, full_align=True):
             if D >= 1016:       # reserved range across the sector border
                 out.append(t2_case(D, product, 0, 'sector', 8))
                 out.append(t2_case(D, product, 2, 'sector', 3))
+            if D >= 504:        # Memory Control TLV size octet 00h = 256 bytes
+                for rsv in ('before', 'early'):
+                    out.append(t2_case(D, product, 0, rsv, 256))
             if D == 504:        # avail around the 1-byte / 3-byte length switch
                 for fill in range(254, 261):
                     out.append(t2_case(D, product, fill=fill))
@@ -427,6 +430,9 @@ def t1_cases(tier):
         if size == 512:
             for fill in range(254, 261):
                 out.append(t1_case(size, hr1, fill=fill))
+            # Memory Control TLV size octet 00h = 256 reserved bytes
+            for rsv in ('before', 'early'):
+                out.append(t1_case(size, hr1, 0, rsv, 256))
     return out
 
 
